@@ -207,6 +207,9 @@ mod sorter;
 mod varint;
 mod writer;
 
+#[cfg(grenad_verif)]
+pub mod verif;
+
 pub use self::compression::CompressionType;
 pub use self::error::Error;
 pub use self::merge_function::MergeFunction;
